@@ -51,8 +51,12 @@ CtmU(m) == <<m[1], m[2], m[3], m[4], m[5] * U, m[6] * U>>
 \* ------------------------------------------------------------------ resources (constants of the model)
 \* fonts: F1 single-byte (A=500 B=1000 space=250, others 0), F2 two-byte Identity-H (every CID 1000)
 FontMB(f) == f = "F2"
-FontW(f, cid) == IF f = "F2" THEN 1000
-                 ELSE CASE cid = 65 -> 500 [] cid = 66 -> 1000 [] cid = 32 -> 250 [] OTHER -> 0
+\* F1: /FirstChar 32 /LastChar 67 /Widths with A 500, B 1000, space 250 and an explicit 0 for every other code of the
+\*     table (C = 67 among them); /MissingWidth 300 for codes outside the table (D = 68)
+\* F2: /DW 1000 and /W [32 [0]] - an explicit zero next to a non-zero default
+FontW(f, cid) == IF f = "F2" THEN (IF cid = 32 THEN 0 ELSE 1000)
+                 ELSE CASE cid = 65 -> 500 [] cid = 66 -> 1000 [] cid = 32 -> 250
+                        [] cid \in 32..67 -> 0 [] OTHER -> 300
 FontDesc(f) == -200
 RECURSIVE Pairs2(_)
 Pairs2(s) == IF Len(s) < 2 THEN <<>> ELSE <<s[1] * 256 + s[2]>> \o Pairs2(SubSeq(s, 3, Len(s)))
@@ -77,7 +81,7 @@ Num(n)  == [t |-> "num", n |-> n, s |-> <<>>, a |-> <<>>]
 Str(s)  == [t |-> "str", n |-> 0, s |-> s, a |-> <<>>]
 \* names and operators are stored as indexes into these tables so that every token field has one type
 \* (TLC cannot order sets that mix integers and strings)
-NameTab == <<"F1", "F2", "Fm1", "Fm2", "DeviceGray", "DeviceRGB", "DeviceCMYK", "x",
+NameTab == <<"F1", "F2", "Fm1", "Fm2", "Fm3", "DeviceGray", "DeviceRGB", "DeviceCMYK", "x",
             "CsI1", "CsI3", "CsI4", "CsBad", "CsN2", "CsN3", "CsSep", "CsIdx", "CsLab">>
 OpTab == <<"q", "Q", "cm", "w", "d", "BT", "ET", "Tc", "Tw", "Tz", "TL", "Tf", "Ts", "Td", "TD", "Tm", "T*", "Tj", "TJ", "'", "\"",
            "g", "G", "rg", "RG", "k", "K", "cs", "CS", "sc", "scn", "SC", "SCN", "m", "l", "c", "v", "y", "h", "re",
@@ -90,14 +94,17 @@ NameStr(tok) == NameTab[tok.s[1]]
 OpStr(tok) == OpTab[tok.s[1]]
 IsNum(x) == x.t = "num"
 
-\* form XObjects: [matrix, res (own resources?), body (token program)]
-CONSTANTS Forms      \* function from form name to [m |-> matrix (pts), body |-> token sequence]
+\* form XObjects.  Resource names are local to a resource dictionary: the page's /XObject dictionary is PageXO; a form
+\* with a /Resources dictionary of its own (own = TRUE) sees only the XObjects that dictionary lists (xo), a form
+\* without one sees what its caller sees.
+CONSTANTS Forms,     \* function from form key to [m |-> matrix (pts), body |-> token sequence, own |-> BOOLEAN, xo |-> name -> form key]
+          PageXO     \* function from the names in the page's /XObject dictionary to form keys
 
 \* ------------------------------------------------------------------ state
 TS0 == [font |-> "", size |-> 0, tc |-> 0, tw |-> 0, tz |-> 100, tl |-> 0, rise |-> 0,
         tm |-> Ident, lx |-> 0, ly |-> 0]              \* tm: e,f in u; lx,ly: pen offset in the line, u
 GS0 == [lw |-> 0, dash |-> <<>>, sc |-> <<>>, nc |-> <<>>]   \* colour <<>> = never set
-State0(ctm) == [ctm |-> ctm, dctm |-> ctm, gstack |-> <<>>, ts |-> TS0, gs |-> GS0,
+State0(ctm, env) == [ctm |-> ctm, dctm |-> ctm, env |-> env, gstack |-> <<>>, ts |-> TS0, gs |-> GS0,
                 scs |-> "DeviceGray", ncs |-> "DeviceGray", path |-> <<>>, args |-> <<>>,
                 glyphs |-> <<>>, shapes |-> <<>>, err |-> "none"]
 
@@ -197,9 +204,9 @@ Paint(st, stroke, fill, eo) ==
 RECURSIVE Run(_, _), Exec(_, _, _)
 SetColor(st, which, q) == IF which = "n" THEN [st EXCEPT !.gs.nc = q] ELSE [st EXCEPT !.gs.sc = q]
 DoForm(st, name) ==
-  IF name \notin DOMAIN Forms THEN st
-  ELSE LET f == Forms[name]
-           inner0 == State0(Mult(f.m, st.ctm))
+  IF name \notin DOMAIN st.env THEN st
+  ELSE LET f == Forms[st.env[name]]
+           inner0 == State0(Mult(f.m, st.ctm), IF f.own THEN f.xo ELSE st.env)
            inner1 == IF "FormNoGsInherit" \in Dev THEN inner0
                      ELSE [inner0 EXCEPT !.gs = st.gs, !.scs = st.scs, !.ncs = st.ncs,
                                          !.ts = [st.ts EXCEPT !.tm = Ident, !.lx = 0, !.ly = 0]]
@@ -310,7 +317,7 @@ CONSTANTS DevChoices,      \* set of deviation sets to run every program under
           MixTokens,       \* > 0: the program is extended with instances drawn from MixPool while it is shorter (used
           MixPool          \*      with `tlc -simulate` for long programs mixing all operator groups); 0: fixed program
 
-Start(p, ctm) == dev \in DevChoices /\ prog = p /\ pc = 1 /\ st = State0(ctm) /\ snaps = <<>>
+Start(p, ctm) == dev \in DevChoices /\ prog = p /\ pc = 1 /\ st = State0(ctm, PageXO) /\ snaps = <<>>
 
 Snap(s) == [ctm |-> s.ctm, dctm |-> s.dctm, tm |-> s.ts.tm, lx |-> s.ts.lx, font |-> s.ts.font, size |-> s.ts.size,
             tc |-> s.ts.tc, tw |-> s.ts.tw, tz |-> s.ts.tz, tl |-> s.ts.tl, rise |-> s.ts.rise,
